@@ -56,6 +56,19 @@ class UserTimeout(TimeoutError):
     pass
 
 
+def safe_repr(obj):
+    """repr() for messages of the harness: scenarios use objects that cannot be printed"""
+    try:
+        return repr(obj)
+    except Exception:  # noqa: B902
+        if isinstance(obj, (tuple, list)):
+            return "[%s]" % ", ".join(safe_repr(item) for item in obj)
+        if isinstance(obj, dict):
+            return "{%s}" % ", ".join("%s: %s" % (safe_repr(k), safe_repr(v))
+                                      for k, v in obj.items())
+        return "<unprintable %s>" % type(obj).__name__
+
+
 class FalsyError(Exception):
     """An exception whose instances are falsy (it collects sub-errors, and has none)"""
 
@@ -270,6 +283,11 @@ class Kit:
                 return cls._instance
 
             Service.__new__ = __new__
+        elif shape == "equal":
+            # services that compare (and hash) by value: two equal instances are still two
+            # services (a dataclass with unsafe_hash, say)
+            Service.__eq__ = lambda self, other: type(other) is type(self)
+            Service.__hash__ = lambda self: 11
         elif shape in ("redecorated", "subclass"):
             # derived from a class that is a service already - of another flavour and
             # decorated again, or of the same flavour and not decorated again
